@@ -264,6 +264,147 @@ def subStep (j : SubJ) (ev : Ev) (outs : List Out) : SubJ :=
 def subJudge (tr : List (Ev × List Out)) : Option String :=
   (tr.foldl (fun j x => subStep j x.1 x.2) ({} : SubJ)).err
 
+/-! ### raw SUB (xsub.c): no filtering, one socket-level FIFO of depth NNG_OPT_RECVBUF
+
+  XSUB clauses
+   (all)     every message arriving on a connected pipe is taken — there are no topics;
+   (waiter)  with a receive outstanding the arrival is handed over in the same step;
+   (drop)    with no receiver the arrival is queued while fewer than NNG_OPT_RECVBUF messages
+             are queued; only when the queue is full is a message lost, and then it is the
+             whole arriving message (the queued ones stay, in order);
+   (order)   every successful receive returns exactly the oldest queued message, bytes
+             unchanged, empty header — no duplicates, no reordering, nothing invented;
+   (nb)      a non-blocking / zero-timeout receive completes in its own step, and it fails
+             only if nothing is queued; no receive stays parked while a message is queued;
+   (resize)  shrinking NNG_OPT_RECVBUF keeps the newest depth + 1 messages, in order;
+   (poll)    [feeds C15] the receive descriptor is readable iff a message is queued. -/
+
+structure XsubJ where
+  opened : Bool := false
+  closed : Bool := false
+  cap : Nat := Nng.Generated.c05SockRecvqInit
+  queue : List Bytes := []        -- arrived and accepted, not yet received, oldest first
+  waiting : List Nat := []        -- outstanding receive aios
+  owed : Option Bytes := none     -- a delivery that must happen within the current step
+  err : Option String := none
+deriving Repr
+
+def XsubJ.fail (j : XsubJ) (msg : String) : XsubJ :=
+  match j.err with | some _ => j | none => { j with err := some msg }
+
+def xfailureAllowed (ev : Ev) (a : Nat) : Bool :=
+  match ev with
+  | .cancel a' => a == a'
+  | .abort a' _ => a == a'
+  | .advance _ => true
+  | .close => true
+  | .recv _ a' _ => a == a'
+  | _ => false
+
+def xsubDone (ev : Ev) (j : XsubJ) (o : Out) : XsubJ :=
+  match o with
+  | .done a rv msg msgback =>
+    if j.waiting.contains a then
+      let w := j.waiting.filter (· != a)
+      match rv, msg with
+      | 0, some m =>
+        match j.owed with
+        | none => j.fail s!"receive {a} returned a message the socket does not owe (no arrival, or a duplicate)"
+        | some b =>
+          if m.body != b then j.fail s!"receive {a} returned other bytes than the oldest queued message (altered / reordered)"
+          else if !m.hdr.isEmpty then j.fail s!"receive {a} returned a message with a non-empty header"
+          else { j with waiting := w, owed := none }
+      | 0, none => j.fail s!"receive {a} succeeded without a message"
+      | _, some _ => j.fail s!"receive {a} failed with {rv} but carries a message"
+      | _, none =>
+        if msgback then j.fail s!"receive {a} completed as if it were a send"
+        else if !xfailureAllowed ev a then j.fail s!"receive {a} failed with {rv} without a cause"
+        else
+          match ev, j.owed with
+          | .recv _ a' _, some _ =>
+            if a == a' then j.fail s!"receive {a} failed with {rv} although a message is queued" else { j with waiting := w }
+          | _, _ => { j with waiting := w }
+    else
+      match ev with
+      | .send _ a' _ _ =>
+        if a == a' then
+          if rv == 0 then j.fail s!"a send on a raw SUB socket succeeded"
+          else if !msgback then j.fail s!"failed send {a} did not leave the message with the caller"
+          else j
+        else j.fail s!"completion of aio {a} that has no receive outstanding"
+      | .recv (some _) a' _ =>
+        if a == a' then
+          if rv == 0 || msg.isSome then j.fail s!"receive {a} on a context of a raw socket returned a message" else j
+        else j.fail s!"completion of aio {a} that has no receive outstanding"
+      | _ => j.fail s!"completion of aio {a} that has no receive outstanding"
+  | _ => j
+
+def xsubStep (j : XsubJ) (ev : Ev) (outs : List Out) : XsubJ :=
+  if j.err.isSome then j else
+  if notExecuted outs then j else
+  if !j.opened then
+    match ev with
+    | .openSock _ _ => if outs.contains (.rv 0) then { j with opened := true } else j
+    | _ => j
+  else if j.closed then j else
+  let rv := rvOf outs
+  let j : XsubJ :=
+    match ev with
+    | .recvDone _ (.ok b) =>
+      if rv == some 0 then
+        if !j.waiting.isEmpty then { j with owed := some b }
+        else if j.queue.length < j.cap then { j with queue := j.queue ++ [b] }
+        else j                                  -- full: the arriving message is lost, whole
+      else j
+    | .recv none a _ =>
+      match j.queue with
+      | b :: rest => { j with queue := rest, owed := some b, waiting := j.waiting ++ [a] }
+      | [] => { j with waiting := j.waiting ++ [a] }
+    | .setopt none name ty v =>
+      if rv == some 0 && name == Nng.Generated.c05OptRecvBuf && ty == "int" then
+        { j with cap := v.toNat, queue := j.queue.drop (j.queue.length - (v.toNat + 1)) }
+      else j
+    | .getopt none name ty =>
+      match outs with
+      | [.rv2 0 v] =>
+        if name == Nng.Generated.c05OptRecvBuf && ty == "int" && v != j.cap then
+          j.fail s!"receive buffer depth reported as {v}, configured {j.cap}"
+        else j
+      | _ => j
+    | _ => j
+  let j := outs.foldl (xsubDone ev) j
+  if j.err.isSome then j else
+  let j := match j.owed with
+    | some _ =>
+      (match ev with
+       | .recv _ _ _ => j.fail "the receive did not return the message that is queued"
+       | _ => j.fail "a receive is outstanding and a message arrived, but it was not delivered")
+    | none => j
+  let j := match ev with
+    | .recv _ a mode =>
+      let pending := j.waiting.contains a
+      (match mode with
+       | .nb => if pending then j.fail s!"non-blocking receive {a} did not complete at once" else j
+       | .ms 0 => if pending then j.fail s!"zero-timeout receive {a} did not complete at once" else j
+       | _ => j)
+    | .close =>
+      if !j.waiting.isEmpty then j.fail "socket closed but a receive is still pending"
+      else { j with closed := true, queue := [] }       -- what is still queued goes with the socket
+    | .poll =>
+      match outs with
+      | [.poll (some r) _] =>
+        if r != !j.queue.isEmpty then
+          j.fail (if r then "the socket polls readable but has no message to receive" else "the socket has a message queued but does not poll readable")
+        else j
+      | _ => j
+    | _ => j
+  let j := if !j.waiting.isEmpty && !j.queue.isEmpty then j.fail "a receive stays parked although a message is queued" else j
+  let j := if j.queue.length > j.cap + 1 then j.fail "the socket buffers more messages than its receive buffer depth (+1)" else j
+  if hasBlocked outs then j.fail "a non-blocking call blocked" else j
+
+def xsubJudge (tr : List (Ev × List Out)) : Option String :=
+  (tr.foldl (fun j x => xsubStep j x.1 x.2) ({} : XsubJ)).err
+
 /-! ### PUB -/
 
 structure JPipe where
